@@ -284,7 +284,7 @@ def nested_world(rng, prefix, layers=None, nmods=(1, 4), depth=(0, 3),
                  levels=(None, None, 1, 2, 3), p_layer=0.4, p_level=0.35,
                  tests_per_class=(1, 3), classes_per_suite=(1, 2),
                  kinds=('pass',), layouts=('tests_pkg', 'tests_file',
-                                           'nested_pkg'),
+                                           'nested_pkg', 'ns_dir'),
                  p_unit_mod=0.0, p_flat=0.0):
     """A world with several modules whose test_suite() returns suites nested
     to the given depth, with layer/level declared (or not) at every depth and
@@ -294,6 +294,7 @@ def nested_world(rng, prefix, layers=None, nmods=(1, 4), depth=(0, 3),
     lnames = [ls['name'] for ls in layers]
     nm = rng.randint(*nmods)
     mods = []
+    no_init = []
     cls_counter = [0]
 
     def decl(node):
@@ -335,6 +336,11 @@ def nested_world(rng, prefix, layers=None, nmods=(1, 4), depth=(0, 3),
             name = '%s_p%d.tests.test_m%d' % (prefix, i % 2, i)
         elif layout == 'tests_file':
             name = '%s_q%d.tests' % (prefix, i)
+        elif layout == 'ns_dir':
+            # a plain directory (no __init__.py: a PEP 420 namespace
+            # package) with a regular package inside
+            name = '%s_ns%d.inner.tests' % (prefix, i)
+            no_init.append('%s_ns%d' % (prefix, i))
         else:
             name = '%s_p%d.sub%d.tests.test_n%d' % (prefix, i % 2, i, i)
         m = {'name': name, 'file': name.replace('.', '/') + '.py',
@@ -345,7 +351,7 @@ def nested_world(rng, prefix, layers=None, nmods=(1, 4), depth=(0, 3),
         m['suite'].pop('dummy', None)
         mods.append(m)
     return {'prefix': prefix, 'layers_module': prefix + '_layers',
-            'layers': layers, 'modules': mods}
+            'layers': layers, 'modules': mods, 'no_init': no_init}
 
 
 def _instance_decls(rng, node, lnames, levels, p_layer, p_level):
